@@ -9,7 +9,7 @@ Part B — cloudsync/notification.py:74-92 `NotificationManager.notify_from_exce
           (an if/elif chain of isinstance tests: the first match wins).
 Part C — cloudsync/sync/manager.py:180-203 `SyncManager._sync_one_entry` (the two except clauses),
           205-221 `_validate_provider_roots`, 222-240 `SyncManager.do` (which part of a sync step runs under
-          which handler), cloudsync/event.py:171-193 `EventManager.do` (three except clauses),
+          which handler), cloudsync/event.py:171-194 `EventManager.do` (three except clauses),
           cloudsync/runnable.py:103-117 (the loop's three except clauses).
 Part D — the same logic as *tables* (`Handler` lists) with a small interpreter; `tools/gen_exc_table.py`
           regenerates `Gen/ExcTable.lean` in this very format from the source on every run and
@@ -121,6 +121,7 @@ structure StepOut where
   cursorReset : Bool := false        -- provider.current_cursor = provider.latest_cursor; _save_current_cursor()
   needWalk    : Bool := false        -- need_walk = True
   needAuth    : Bool := false        -- need_auth = True
+  walkForgot  : Bool := false        -- _forget_walk(): the stored walk marker is deleted (so the walk survives a restart)
   raised      : Option Exc := none   -- what leaves the function (`some .backoffError` = the backoff request)
   deriving Repr, DecidableEq
 
@@ -168,9 +169,9 @@ def eventDo (hasNmgr : Bool) (e : Exc) : StepOut :=
   if isAny e [.temporary, .disconnected, .namespace_] then                                  -- :176
     { notes := if hasNmgr then noteOf e else [], raised := some .backoffError }             -- :180-182
   else if isSub e .cursor then                                                              -- :183
-    { cursorReset := true, needWalk := true, raised := some .backoffError }                 -- :185-188
-  else if isSub e .token then                                                               -- :189
-    { needAuth := true, raised := some .backoffError }                                      -- :192-193
+    { cursorReset := true, walkForgot := true, needWalk := true, raised := some .backoffError }   -- :185-189
+  else if isSub e .token then                                                               -- :190
+    { needAuth := true, raised := some .backoffError }                                      -- :193-194
   else { raised := some e }                                                                 -- anything else escapes
 
 /-- runnable.py:103-117: how the loop classifies what left `do()` -/
@@ -193,6 +194,7 @@ inductive Action where
   | backoff           -- self.backoff()
   | resetCursor       -- self.provider.current_cursor = self.provider.latest_cursor
   | saveCursor        -- self._save_current_cursor()
+  | forgetWalk        -- self._forget_walk()
   | setNeedWalk       -- self.need_walk = True
   | setNeedAuth       -- self.need_auth = True
   | incrBackoff       -- self.__increment_backoff()      (runnable.py)
@@ -218,7 +220,7 @@ def auditedRootsHandlers : List Handler := [⟨[.exception_], [.notifyIfCloud, .
 
 def auditedEventHandlers : List Handler :=
   [⟨[.temporary, .disconnected, .namespace_], [.notifyIfNmgr, .backoff]⟩,
-   ⟨[.cursor], [.resetCursor, .saveCursor, .setNeedWalk, .backoff]⟩,
+   ⟨[.cursor], [.resetCursor, .forgetWalk, .saveCursor, .setNeedWalk, .backoff]⟩,
    ⟨[.token], [.setNeedAuth, .backoff]⟩]
 
 def auditedLoopHandlers : List Handler :=
@@ -244,6 +246,7 @@ def runBody (chain : List (Exc × NKind)) (hasNmgr : Bool) (e : Exc) : List Acti
     | .backoff => { o with raised := some .backoffError }
     | .resetCursor => runBody chain hasNmgr e as { o with cursorReset := true }
     | .saveCursor => runBody chain hasNmgr e as o
+    | .forgetWalk => runBody chain hasNmgr e as { o with walkForgot := true }
     | .setNeedWalk => runBody chain hasNmgr e as { o with needWalk := true }
     | .setNeedAuth => runBody chain hasNmgr e as { o with needAuth := true }
     | .incrBackoff => runBody chain hasNmgr e as o
